@@ -374,3 +374,148 @@ Proof.
     + apply step_while; auto.
     + apply step_for; auto.
 Qed.
+
+(* ====================================================================== *)
+(* 4. A2 — statements for whole runs, events and single statements         *)
+(* ====================================================================== *)
+Lemma no_err_decl_funcs P : no_err_decl P = true -> forallb func_ok (p_funcs P) = true.
+Proof. unfold no_err_decl. rewrite !andb_true_iff. tauto. Qed.
+Lemma no_err_decl_stmts P : no_err_decl P = true -> stmts_ok (p_stmts P) = true.
+Proof. unfold no_err_decl. rewrite !andb_true_iff. tauto. Qed.
+Lemma no_err_decl_handlers P : no_err_decl P = true -> forallb handler_ok (p_handlers P) = true.
+Proof. unfold no_err_decl. rewrite !andb_true_iff. tauto. Qed.
+
+Lemma wf_init stop input ff ay : wf (init_state stop input ff ay).
+Proof.
+  unfold wf.
+  change (st_heap (init_state stop input ff ay)) with
+    (snd (halloc (snd (halloc (snd (halloc hempty (HBool false))) (HStr []))) (HNum (float_of_bits pi_bits)))).
+  repeat apply fresh_ok_halloc. intros l _. apply PositiveMap.gempty.
+Qed.
+
+Lemma test_report_heap s : st_heap (test_report s) = st_heap s /\ st_globals (test_report s) = st_globals s.
+Proof. unfold test_report. destruct (Nat.eqb _ _); simpl; auto. Qed.
+
+(* Evaluator.Eval *)
+Lemma run_program_inv fuel P s0 o s1 :
+  no_err_decl P = true -> run_program fuel P s0 = (o, s1) -> Inv s0 s1.
+Proof.
+  intros OK H. unfold run_program in H.
+  match type of H with (let '(r, s1) := ?m s0 in _) = _ => destruct (m s0) as [r s2] eqn:E end.
+  assert (I1 : Inv s0 s2).
+  { apply bind_inv in E. destruct E as [(u & s3 & H1 & E) | (x & H1 & ->)];
+      apply SpecI_tick in H1; auto.
+    eapply Inv_trans; [exact H1|].
+    apply bind_inv in E. destruct E as [(u' & s4 & H2 & E) | (x & H2 & ->)].
+    - apply ret_inv in E. destruct E as [_ ->].
+      eapply (proj1 (proj2 (proj2 (proj2 (proj2 (evaluator_store_inv P (no_err_decl_funcs P OK) fuel)))))); eauto.
+      + apply good_env_nil.
+      + apply no_err_decl_stmts; auto.
+    - eapply (proj1 (proj2 (proj2 (proj2 (proj2 (evaluator_store_inv P (no_err_decl_funcs P OK) fuel)))))); eauto.
+      + apply good_env_nil.
+      + apply no_err_decl_stmts; auto. }
+  eapply Inv_trans; [exact I1|].
+  assert (st_heap s1 = st_heap s2 /\ st_globals s1 = st_globals s2) as [A B].
+  { destruct r as [u|er].
+    - destruct (Nat.ltb 0 _); inversion H; subst; apply test_report_heap.
+    - inversion H; subst. destruct er; auto using test_report_heap. }
+  apply Inv_same; auto.
+Qed.
+
+Lemma bind_payload_spec ps : forall args fr s r s',
+  bind_payload ps args fr s = (r, s') ->
+  Inv s s' /\ forall fr', r = Ok fr' -> params_ok ps = true -> frame_ok fr -> frame_ok fr'.
+Proof.
+  induction ps as [|[n t] ps IH]; intros args fr s r s' H; simpl in H.
+  - apply ret_inv in H; destruct H as [-> ->]. split; [apply Inv_refl|]. intros ? E; inversion E; subst; auto.
+  - destruct args as [|a rest].
+    { apply crash_inv in H; destruct H as [-> ->]; split; [apply Inv_refl|discriminate]. }
+    apply bind_inv in H. destruct H as [(l & s1 & H1 & H) | (x & H1 & ->)].
+    + assert (I1 : Inv s s1) by (destruct t, a; fwd; repeat prim1; inv_chain).
+      apply IH in H. destruct H as [I2 F]. split; [eapply Inv_trans; eauto|].
+      intros fr' E Hn Fr. unfold params_ok in Hn. simpl in Hn. apply andb_true_iff in Hn. destruct Hn.
+      eapply F; eauto. destruct (str_eqb n underscore); auto. apply frame_ok_set; auto.
+    + split; [|discriminate]. destruct t, a; fwd; repeat prim1; inv_chain.
+Qed.
+
+(* Evaluator.HandleEvent *)
+Lemma handle_event_inv fuel P name args s0 o s1 :
+  no_err_decl P = true -> handle_event fuel P name args s0 = (o, s1) -> Inv s0 s1.
+Proof.
+  intros OK H. unfold handle_event in H.
+  destruct (find_handler name (p_handlers P)) as [h|] eqn:F; [|inversion H; subst; apply Inv_refl].
+  pose proof (find_handler_ok _ _ _ (no_err_decl_handlers P OK) F) as HO.
+  unfold handler_ok in HO. apply andb_true_iff in HO. destruct HO as [O1 O2].
+  match type of H with (match ?m s0 with _ => _ end) = _ => destruct (m s0) as [r s2] eqn:E end.
+  assert (s1 = s2) by (destruct r; inversion H; auto). subst s2. clear H.
+  apply bind_inv in E. destruct E as [(fr & s3 & H1 & E) | (x & H1 & ->)];
+    apply bind_payload_spec in H1; destruct H1 as [I1 F1]; auto.
+  specialize (F1 _ eq_refl O1 frame_ok_nil).
+  eapply Inv_trans; [exact I1|].
+  apply bind_inv in E. destruct E as [(u' & s4 & H2 & E) | (x & H2 & ->)].
+  - apply ret_inv in E. destruct E as [_ ->].
+    eapply (proj1 (proj2 (proj2 (proj2 (proj2 (proj2 (evaluator_store_inv P (no_err_decl_funcs P OK) fuel))))))); eauto.
+    apply good_env_single; auto.
+  - eapply (proj1 (proj2 (proj2 (proj2 (proj2 (proj2 (evaluator_store_inv P (no_err_decl_funcs P OK) fuel))))))); eauto.
+    apply good_env_single; auto.
+Qed.
+
+(* A2: in every run and every event, a basic cell other than the two cells bound
+   to err / errmsg keeps its content *)
+Theorem in_place_only_err_run fuel P s0 o s1 :
+  no_err_decl P = true -> wf s0 -> run_program fuel P s0 = (o, s1) ->
+  wf s1 /\ basic_cells_stable s0 s1.
+Proof.
+  intros OK W H. destruct (run_program_inv _ _ _ _ _ OK H W) as [W1 R1]. split; [auto | apply R1].
+Qed.
+
+Theorem in_place_only_err_event fuel P name args s0 o s1 :
+  no_err_decl P = true -> wf s0 -> handle_event fuel P name args s0 = (o, s1) ->
+  wf s1 /\ basic_cells_stable s0 s1.
+Proof.
+  intros OK W H. destruct (handle_event_inv _ _ _ _ _ _ _ OK H W) as [W1 R1]. split; [auto | apply R1].
+Qed.
+
+(* the statement for each of the nine evaluator functions *)
+Theorem in_place_only_err P n :
+  forallb func_ok (p_funcs P) = true ->
+  (forall e x s r s', good_env e -> wf s -> eval_expr n P e x s = (r, s') -> basic_cells_stable s s') /\
+  (forall e l s r s', good_env e -> wf s -> eval_exprs n P e l s = (r, s') -> basic_cells_stable s s') /\
+  (forall e nm args s r s', good_env e -> wf s -> eval_call n P e nm args s = (r, s') -> basic_cells_stable s s') /\
+  (forall e st s r s', good_env e -> stmt_ok st = true -> wf s ->
+                       exec_stmt n P e st s = (r, s') -> basic_cells_stable s s') /\
+  (forall e l s r s', good_env e -> stmts_ok l = true -> wf s ->
+                      exec_stmts n P e l s = (r, s') -> basic_cells_stable s s') /\
+  (forall e l s r s', good_env e -> stmts_ok l = true -> wf s ->
+                      exec_block n P e l s = (r, s') -> basic_cells_stable s s') /\
+  (forall e c b s r s', good_env e -> stmts_ok b = true -> wf s ->
+                        exec_cond n P e c b s = (r, s') -> basic_cells_stable s s') /\
+  (forall e c b s r s', good_env e -> stmts_ok b = true -> wf s ->
+                        exec_while n P e c b s = (r, s') -> basic_cells_stable s s') /\
+  (forall e var rg b s r s', good_env e -> name_ok var = true -> stmts_ok b = true -> wf s ->
+                             exec_for n P e var rg b s = (r, s') -> basic_cells_stable s s').
+Proof.
+  intro HP. destruct (evaluator_store_inv P HP n) as (I1 & I2 & I3 & I4 & I5 & I6 & I7 & I8 & I9).
+  repeat apply conj; intros.
+  - eapply I1; eauto.
+  - eapply I2; eauto.
+  - eapply I3; eauto.
+  - match goal with H : exec_stmt _ _ _ _ _ = _ |- _ => eapply I4 in H; eauto; destruct H as [H _]; apply H; auto end.
+  - match goal with H : exec_stmts _ _ _ _ _ = _ |- _ => eapply I5 in H; eauto; destruct H as [H _]; apply H; auto end.
+  - match goal with H : exec_block _ _ _ _ _ = _ |- _ => eapply I6 in H; eauto; destruct H as [H _]; apply H; auto end.
+  - match goal with H : exec_cond _ _ _ _ _ _ = _ |- _ => eapply I7 in H; eauto; destruct H as [H _]; apply H; auto end.
+  - match goal with H : exec_while _ _ _ _ _ _ = _ |- _ => eapply I8 in H; eauto; destruct H as [H _]; apply H; auto end.
+  - match goal with H : exec_for _ _ _ _ _ _ _ = _ |- _ => eapply I9 in H; eauto; destruct H as [H _]; apply H; auto end.
+Qed.
+
+(* consequence: an assignment (to a variable, an element or a field) never changes the content
+   of any basic cell other than the err cells — whatever runs inside its right-hand side *)
+Theorem basic_noninterference_partial P n e target x s r s' :
+  forallb func_ok (p_funcs P) = true -> good_env e -> wf s ->
+  exec_stmt n P e (SAssign target x) s = (r, s') ->
+  forall l v, hget (st_heap s) l = Some v -> is_basic v = true -> ~ err_loc (st_globals s) l ->
+              hget (st_heap s') l = Some v.
+Proof.
+  intros HP G W H. destruct (in_place_only_err P n HP) as (_ & _ & _ & I4 & _).
+  exact (I4 e (SAssign target x) s r s' G eq_refl W H).
+Qed.
